@@ -1,6 +1,7 @@
-Require Import Coq.Strings.String.
+Require Import Coq.Strings.String Net.Concrete.
+Require Import Props.C03.
 Require Import Base.Bytes Wire.Layout Wire.Customs Wire.LayoutProofs Wire.CustomProofs Wire.Packet Wire.PacketChecks Wire.PacketProofs.
-Require Import Gen.Packets Net.Frame Net.FrameProofs Props.C03.
+Require Import Gen.Packets Net.Frame Net.FrameProofs.
 Local Open Scope N_scope.
 Check c03_encoded_frame_wellformed : forall m p fr,
   frame_encode m p = Ok fr ->
@@ -17,9 +18,11 @@ Check c03_encoded_frame_decodes_completely : forall m p fr,
 Check c03_decoded_never_aborts_partial : forall m p fr p',
   pindom p = true -> frame_encode m p = Ok fr -> frame_decode m fr = Got p' [] -> frame_encode m p' <> Panic.
 Check c03_all_layouts_multiple_of_4 : forallb kind_size4 packet_table = true.
+Check c03_codec_is_stateless_like_the_model : state_tied = true.
 Print Assumptions c03_encoded_frame_wellformed.
 Print Assumptions c03_too_large_refused.
 Print Assumptions c03_size_byte_exact.
 Print Assumptions c03_encoded_frame_decodes_completely.
 Print Assumptions c03_decoded_never_aborts_partial.
 Print Assumptions c03_all_layouts_multiple_of_4.
+Print Assumptions c03_codec_is_stateless_like_the_model.
